@@ -324,6 +324,12 @@ fn parse_number<'a, T: Iterator<Item = &'a Token>>(
         token = cur.next().ok_or(Incomplete)?;
     }
 
+    // A prefix applies to the atom that follows it (the scanner classes `ff` as a symbol);
+    // a bracket, quote or string there is not part of this datum.
+    if !matches!(token.token_type, TokenType::Number | TokenType::Symbol) {
+        return Err(Error::UnexpectedToken(token.span(text).into()));
+    }
+
     let span = token.span(text);
     match Number::parse_with_exactness(span, exactness, radix) {
         Some(num) => Ok(Cell::Number(num)),
